@@ -16,6 +16,10 @@ LEVEL = {
  "C10": ("model_checking", "PamsRunner: logger queue invariants (exactly once, in order, flushed at boundaries). TraceLog builds the ground truth of accepted orders / cancels / fills / expiries from the market probes and requires the deliveries to a recording Logger to be exactly that sequence (expiries of one step in any order), with equal fields, complete at every session boundary, step records synchronous.", "5 C10"),
  "C11": ("model_checking", "TraceLedger keeps the bag of callbacks owed (owner per accepted order / cancel; buyer and seller per fill) and checks every callback observed in scripted agents against it, after holdings of the whole round (callback snapshot = post-round ledger); the bag must be empty at the end. PamsRunner supplies the schedules (self-trades, many fills) exhaustively for small populations.", "5 C11"),
  "C13": ("model_checking", "TraceHooks derives, from the EventHook objects actually registered, the calls each occurrence (order / cancel before+after, fill, session before+after, market step before+after) owes and requires the recorded calls of probe events to be exactly those - times, class / instance filters, before-hooks before the effect, alterations by before-hooks taking effect.", "5 C13"),
+ "C14": ("model_checking", "TableEvents (TLC) checks the shock / mistake-price arithmetic over a grid. TraceEvents (TLC) follows, on recorded runs in exact configurations, the fundamental of every market at every step begin and clock step against the configured shocks (target only, window only, magnitude), and compares every accepted order with what the scripted agent returned: exactly the first order to the target at the trigger time must be the configured mistake order, nothing else may be rewritten, disabled shocks do nothing.", "5 C14"),
+ "C15": ("model_checking", "TableEvents (TLC): clip lemmas over a grid (inside unchanged, outside into the band, band widened by one tick after rounding). TraceEvents (TLC): every acceptance on recorded runs with price limit rules - accepted price = tick rounding of the clipped request on targets (reference = the market's time-0 price as read when the hook runs), unchanged on non-targets, market orders unchanged, trades inside the widened band, a rejected non-target order is a violation.", "5 C15"),
+ "C16": ("model_checking", "PamsHalt (TLC): the state machine of the repaired rule for several rules / targets / sessions satisfies NoFillWithoutExec, NoCrash, HaltRespected, Resumed, SwitchRestored, StoppedOnlyByHalt; the as-found design is kept as a configuration that TLC must reject. TraceEvents (TLC) predicts from the reported fills when each target market must stop and resume and compares Market.is_running and the session switch at every step begin / end and acceptance; TraceBook: no fill on a market that is not running.", "5 C16"),
+ "C17": ("model_checking", "TableEvents (TLC): weighted-sum lemmas. TraceEvents (TLC): at every step begin / end the index value cross-multiplied with the share total equals the share-weighted sum of the component market prices, and at every clock step the index fundamental equals the weighted component fundamentals for the new time (exact configurations; a harness side condition with relative 1e-12 covers the float division).", "5 C17"),
 }
 NOTE = {
  "C01": "Trusted: TLC, the Json module, the probes (harness/book_session.py) that project floats to integer units exactly (dyadic ticks) or by rounding (decimal ticks). Bounds: design model constants in spec/MC_PamsMarket_*.cfg; histories of 30-120 operations.",
@@ -34,6 +38,10 @@ TECH = {
  "C10": "TLA+ logger-queue model (TLC) + TLC trace validation of deliveries against ground truth from market probes",
  "C11": "TLA+ owed-callback bag validated by TLC on recorded runs with scripted agents",
  "C13": "TLA+ hook-selection rule validated by TLC against recorded calls of probe events",
+ "C14": "TLA+ event arithmetic lemmas (TLC) + TLC trace validation of fundamentals and accepted orders against configured shocks",
+ "C15": "TLA+ clip lemmas (TLC) + TLC trace validation of every acceptance and trade in runs with price limit rules",
+ "C16": "TLA+ halt-rule state machine (TLC, repaired design accepted / as-found design rejected) + TLC trace validation of running flags and fills",
+ "C17": "TLA+ weighted-sum lemmas (TLC) + TLC trace validation of index value and index fundamental against components",
 }
 
 def main():
